@@ -491,9 +491,9 @@ class Pow(CovariancePair):
             # where the base underflowed to 0.0 the product is 0**(n-1) * 0 = inf * 0 = nan for n < 1;
             # the true value is below the float range there, so return 0
             power_grad = where(
-                base_k > 0,
-                self.right * (base_k ** (self.right - 1)) * base_grad,
+                (base_k == 0) & (self.right < 1),
                 0.0,
+                self.right * (base_k ** (self.right - 1)) * base_grad,
             )
 
             target_shape = x_shape[:-1] + y_shape
